@@ -264,6 +264,10 @@ class Runner:
         w, rng, res = self.w, self.rng, self.res
         self.k += 1
         ext = ".ics" if kind == "calendar" else ".vcf"
+        if existing and rng.random() < 0.35:
+            # member names as some clients write them: the extension in capitals or mixed case
+            ext = rng.choice([ext.upper(), ext.capitalize(), "." + ext[1:].capitalize()])
+            res.count("invalid_over_existing_member_with_upper_case_extension")
         name = "i%d%s" % (self.k, ext)
         ctype = self.ctype_variant(kind)
         where = f"{w.fe_kind}/{backend}/{kind}"
@@ -404,6 +408,7 @@ def check(tier, seed, t0):
               ("re-uploads of recurring events after a report with expanded recurrences", c.get("expand_reports_before_reupload", 0), 5 if not th else 50),
               ("shards under a file-creation mask other than 022", sum(v for k_, v in c.items() if k_.startswith("shards_with_umask:") and not k_.endswith("default")), 4),
               ("shards whose collections were typed after creation", c.get("shards_with_collections_typed_after_creation", 0), 3),
+              ("invalid bodies PUT over an existing member whose extension is in capitals / mixed case", c.get("invalid_over_existing_member_with_upper_case_extension", 0), 40),
               ("invalid bodies sent by POST add-member", c.get("invalid_posted", 0), 100), ("of which refused", c.get("invalid_post_refused", 0), 80),
               ("invalid bodies whose bytes were stored before under an unvalidated type", c.get("primed_plain_stored", 0) + c.get("primed_other_stored", 0), 60),
               ("share of valid bodies accepted (percent)", 100 * c.get("valid_accepted", 0) // gen_n, 90),
